@@ -215,6 +215,25 @@ TABLE = {
              "delivery properties claimed only for the documented discipline (suspend point released and listeners run before the next call / last "
              "drop); shared_ptr refcount and plain accesses are not scheduling points; weak CAS as strong; TCB: TLC, vsched, projection code, c15.py's edge cover",
         design_ref="6/C15, 3.11"),
+    "C16": dict(
+        claimed=True,
+        text="An explicit TLA+ specification of publisher<T>::queue at the grain of the implementation is model-checked exhaustively with TLC "
+             "against the C16 invariants and action properties. It models the registration array with its free list, the retained window, "
+             "and next() as the separately scheduled critical sections advance_lk / advance_suspend_lk / wake-up / get_value_lk, with wake-ups "
+             "outside the lock: gap-free in-order delivery, no duplicates, monotone skipping modes, recent-is-newest, end-of-stream only on "
+             "closed-and-drained, kick or lag beyond max, close/destroy/kick waking every waiter, independent copies, window sufficiency, "
+             "free-list soundness. Configurations: all 20 (min,max) settings in 1..5 plus unlimited x the three modes, up to 3 subscribers and "
+             "6 published values. The thorough tier replays every edge of every state graph on the real cocls::publisher<int> / "
+             "subscriber<int>, calling the awaiter's three public steps separately to reach the windows between ready(), subscribe() and "
+             "check_next(); quick replays every edge of the one-subscriber graphs and a capped sample of the larger ones. Real coroutines, "
+             "a really blocked thread and next_ready() are used for the whole-call forms, and all internal registration state is compared "
+             "after every step. Four genuine defects of the pinned tree (close race, get_value_lk bookkeeping, blocking conversion, copy of a "
+             "parked subscriber) were derived as TLC counterexamples, confirmed on the real code and fixed in /repo; their unrepaired variants "
+             "are kept behind Fix* constants as rejected self-tests.",
+        note="bounds: <=3 subscribers, <=4 subscribe events, <=6 values, batches <=3; thread interleavings at critical-section grain on the spec "
+             "(std::mutex trusted), the blocking form replayed as a whole call in a real thread; publish after close, use after the first EOS, "
+             "copying a kicked/dropped/mid-call subscriber excluded; TCB: TLC, dot-graph path cover, the replayer's probe classes",
+        design_ref="6/C16, 3.11, 9.6"),
     "C17": dict(
         claimed=True,
         text="SharedFuture.tla models cocls::shared_future at the finest replayable grain: the heap state, the shared_ptr use count decomposed "
